@@ -45,6 +45,7 @@ def run(facts, rep, tier):
     sharedkernel(F, rep)
     cycle(F, rep)
     samelang(F, rep)
+    operands_evaluated(F, rep)
     constfn(F, R, rep)
 
 
@@ -73,6 +74,21 @@ def sharedkernel(F, rep):
             via = [callee_name(t) or "" for _, t in w.calls()]
             b = kernel in via
         c = wrapper in template_paths
+        # the wrapper is a pure delegation: the kernel call lies on EVERY path from entry to return
+        every_path = False
+        if w is not None and b:
+            kb = [bi for bi, t in w.calls() if (callee_name(t) or "") == kernel]
+            pd = postdominators(w)
+            every_path = any(k in pd.get(0, set()) for k in kb)
+            rep.oblige("SHAREDKERNEL", op + ":every-path-delegates", every_path,
+                       sample={"rule": "SHAREDKERNEL", "wrapper": wrapper, "kernel_call_postdominates_entry":
+                               every_path})
+            if not every_path:
+                rep.add(Finding("SHAREDKERNEL", "SHAREDKERNEL|%s|bypass" % op,
+                                "%s has a path from entry to return that does not go through %s (a fast path or "
+                                "special case in front of the delegation): for some arguments the run-time result is "
+                                "computed by different code than the compile-time one" % (wrapper, kernel),
+                                file=w.file, line=w.line, fn=wrapper))
         ok = a and b and c
         rep.oblige("SHAREDKERNEL", op, ok, sample={"rule": "SHAREDKERNEL", "operation": op, "kernel": kernel,
                                                    "const_evaluator_calls_it": a, "runtime_wrapper_calls_it": b,
@@ -253,6 +269,40 @@ def samelang(F, rep):
                             "stops with `not allowed in const initializers`" % (v, kinds),
                             file=va.file, line=vsw["ln"], fn=va.path))
     rep.floor("SAMELANG", "initializer forms the evaluator can accept", n, 8)
+
+
+def operands_evaluated(F, rep):
+    """A const binary expression yields a value only after BOTH operands were evaluated (each operand can hold a
+    cycle edge or a non-const name that must be diagnosed)."""
+    ev = F.one_fn("eval_const_expr")
+    if ev is None:
+        return
+    sw = primary_dispatch(ev, AST + "Expr")
+    regs = arm_regions(ev, sw) if sw else {}
+    for v, arity in (("Binary", 2), ("Index", 2), ("Unary", 1)):
+        arm = regs.get(v)
+        if not rep.anchor("OPERANDS", "Expr::%s arm of eval_const_expr" % v, arm):
+            continue
+        rec = sorted(b for b in arm if ev.term(b)["t"] == "call" and
+                     (callee_name(ev.term(b)) or "").endswith("::eval_const_expr"))
+        rep.floor("OPERANDS", "recursive evaluations in the %s arm" % v, len(rec), arity)
+        somes = [b for b in arm for s in ev.stmts(b)
+                 if s["s"] == "assign" and s["rv"]["r"] == "agg" and s["rv"].get("variant") == "Some"
+                 and s["rv"].get("adt", "").endswith("option::Option")]
+        tgt = sw["explicit"][v]
+        # the first `arity` recursive calls in block order are the operand evaluations
+        for i, r in enumerate(rec[:arity]):
+            reach = ev.reachable(tgt, avoid={r})
+            bad = [b for b in somes if b in reach]
+            ok = not bad
+            rep.oblige("OPERANDS", "%s:operand#%d" % (v, i + 1), ok,
+                       sample={"rule": "OPERANDS", "form": v, "operand": i + 1, "value_without_evaluating_it": not ok})
+            if not ok:
+                rep.add(Finding("OPERANDS", "OPERANDS|eval_const_expr|%s#%d" % (v, i + 1),
+                                "the const evaluator can produce a value for an Expr::%s without evaluating its "
+                                "operand #%d (short-circuit / fast path): a dependency cycle or a non-const name in "
+                                "that operand is never diagnosed, and the const's value is decided differently from "
+                                "the run-time expression" % (v, i + 1), file=ev.file, line=sw["ln"], fn=ev.path))
 
 
 def constfn(F, R, rep):
